@@ -35,9 +35,19 @@ Contract clauses evaluated after EVERY step:
   E1  anything an operation raises is InvalidRequestError or ResourceClosedError
   E2  an operation the ghost says must raise (ended transaction, closed connection, second begin, dead ctx) raises
   E3  an operation the ghost says is legal does not raise
-Only the first failing clause of a sequence is reported (every prefix is itself an enumerated sequence).
+  R1  recovery (follows from "an outer commit / rollback / close ends everything" + F1-F4, E1-E3): after the first failing
+      clause of a sequence the remaining steps are still RUN but not judged (the Connection has left the ghost) until
+      the next operation which, in the ghost, ends the outer transaction (commit / rollback / close on the Connection, or
+      commit / rollback / close / with-exit on the live begin() handle).  From that step on every clause is judged again:
+      the Connection must be back in step with the model - no transaction, no savepoint (get_nested_transaction() is
+      None), nothing uncommitted held, and afterwards every handle of the ended transaction behaves as ended (commit
+      raises InvalidRequestError, rollback / close do nothing), begin / ins / begin_nested work normally.  The data
+      clauses F5 / F6 restart from what the independent connection sees at that step (the data effect of the deviation
+      belongs to the deviation).  A clause failing after the resumption is reported as a second, separate failure whose
+      input carries ``resumed_after`` (step, operation and clause of the first one).
+At most these two failures of a sequence are reported (every prefix is itself an enumerated sequence).
 
-Scope (exact text in coverage.scope), two enumerations run by the same interpreter ``run_seq`` and judged by the same clauses:
+Scope (exact text in coverage.scope), three enumerations run by the same interpreter ``run_seq`` and judged by the same clauses:
   (1) ALL operation sequences of length <= 5 (quick) / <= 6 (thorough) over the 20 operations OPS
       (t = handle of the last successful begin(), n / m = handles of the last / last-but-one successful begin_nested());
   (2) with-block programs, longer than (1) reaches: the block skeletons SKELETONS — ``with conn.begin():`` containing
@@ -49,6 +59,14 @@ Scope (exact text in coverage.scope), two enumerations run by the same interpret
       where an inner block exits by exception or after its transaction was already ended in-block, the enclosing
       transaction is then ended in-block, and further operations are attempted inside the still-open outer block (which
       the "ctx dead" rule says must raise).  ``n3.`` .. ``n9.`` address the 3rd .. 9th most recent begin_nested() handle.
+  (3) misuse-recovery programs, longer than (1) reaches (``recovery_programs``): [begin()] + a savepoint stack of depth
+      2..4 (quick) / 2..5 (thorough), with or without an insert in every frame + ONE out-of-order operation (commit /
+      rollback / close / with-block exit normally / by exception) on a savepoint at ANY position below the innermost one
+      + an operation ending the outer transaction (commit / rollback / close on the Connection or the begin() handle)
+      + every sequence of <= 1 (quick) / <= 2 (thorough) follow-up operations from {ins, begin, begin_nested, commit,
+      rollback, commit / rollback on each savepoint handle and on the begin() handle}.  The out-of-order operation is
+      where the recorded findings (known_findings.d/C23.json) make the Connection leave the ghost; R1 judges what the
+      end of the outer transaction and the use of the old handles do afterwards.
 Bounded; not a proof.
 """
 import itertools
@@ -150,7 +168,7 @@ class Env:
         self.tmp.cleanup()
 
 
-def run_seq(env, ops, trace=False):
+def run_seq(env, ops, trace=False, resume=True):
     """returns dict(status='ok'|'pruned'|'fail', steps=n, failure=..., raised=[...], trace=[...])"""
     from sqlalchemy import exc as sa_exc
     try:
@@ -165,7 +183,9 @@ def run_seq(env, ops, trace=False):
     k = 0
     raised = []
     tr = []
-    out = dict(status="ok", steps=0, failure=None)
+    out = dict(status="ok", steps=0, failure=None, failure2=None, resumed=0, steps_after_resume=0)
+    degraded = None      # set at the first failing clause: steps are run but not judged until the ghost's outer transaction ends
+    resumed_after = None
 
     def state():
         def st(x):
@@ -262,6 +282,12 @@ def run_seq(env, ops, trace=False):
                 err = (type(ex).__name__, isinstance(ex, (sa_exc.InvalidRequestError, sa_exc.ResourceClosedError)), str(ex)[:140])
             raised.append((op, err[0] if err else None))
             out["steps"] = i + 1
+            if degraded is not None and (undetermined or (err and not must_raise and op in ("begin", "begin_nested"))):
+                break       # unjudged part: a handle the ghost counts on was never created / undocumented state: give up
+
+            ends_outer = (not must_raise) and (op in ("commit", "rollback", "close") or (
+                target is not None and target[1].kind == "root" and target[1].live
+                and verb in ("commit", "rollback", "close", "exit_ok", "exit_raise")))
 
             # ---- ghost effect (only if the operation is legal; a raising operation must leave everything unchanged)
             if not must_raise:
@@ -312,6 +338,20 @@ def run_seq(env, ops, trace=False):
 
             # ---- clauses
             fail = None
+            if degraded is not None:
+                if not ends_outer:
+                    if trace:
+                        tr.append(dict(op=op, raised=err and err[0], ghost=state(), judged=False))
+                    continue
+                # R1: the ghost's outer transaction has just ended -> judgement resumes with this step; the data clauses
+                # restart from what the independent connection sees now (the data effect of the deviation belongs to it)
+                resumed_after = f"step {degraded['step']} {degraded['op']} {degraded['clause']}"
+                degraded = None
+                out["resumed"] = 1
+                if not err:
+                    G.committed = set(env.observed())
+            if resumed_after is not None:
+                out["steps_after_resume"] += 1
             if err and not err[1]:
                 fail = ("E1-foreign-exception", f"{err[0]}: {err[2]}")
             elif must_raise and not err:
@@ -351,7 +391,15 @@ def run_seq(env, ops, trace=False):
                 tr.append(dict(op=op, raised=err and err[0], ghost=state()))
             if fail:
                 out["status"] = "fail"
-                out["failure"] = dict(clause=fail[0], detail=fail[1], step=i, op=op, pre=pre, target=tdesc)
+                if out["failure"] is None:
+                    out["failure"] = dict(clause=fail[0], detail=fail[1], step=i, op=op, pre=pre, target=tdesc)
+                    if not resume:
+                        break
+                    degraded = out["failure"]
+                    out["steps"] = i + 1
+                    out["steps_first"] = i + 1
+                    continue
+                out["failure2"] = dict(clause=fail[0], detail=fail[1], step=i, op=op, pre=pre, target=tdesc, resumed_after=resumed_after)
                 break
     finally:
         try:
@@ -360,6 +408,8 @@ def run_seq(env, ops, trace=False):
             pass
         if conn.closed is False or getattr(conn, "_dbapi_connection", None) is not None:
             env.engine.dispose()
+    if out["failure"] is not None:
+        out["status"] = "fail"      # (a later 'no target' / 'undetermined' cut does not erase the failure already found)
     out["raised"] = raised
     out["trace"] = tr
     return out
@@ -459,22 +509,65 @@ def with_programs(k2, k3, minlen):
                             yield tuple(ops)
 
 
-def worker(shard, nshards, maxlen, k2=0, k3=0):
+def _hname(j):
+    return "n" if j == 1 else "m" if j == 2 else f"n{j}"
+
+
+def recovery_programs(dmax, nfollow, minlen):
+    """misuse-recovery programs (longer than the exhaustive scope): [begin] + a savepoint stack of depth d = 2..dmax
+    (optionally one insert in every frame) + ONE out-of-order operation (commit / rollback / close / a with-block exit,
+    normal or by exception) on a savepoint that is not the innermost one (every position below the top) + an operation
+    that ends the outer transaction (commit / rollback / close on the Connection or on the begin() handle) + every
+    sequence of <= nfollow follow-up operations from {ins, begin, begin_nested, commit, rollback, commit / rollback on
+    each of the d savepoint handles and on the begin() handle}."""
+    for explicit in (False, True):
+        for d in range(2, dmax + 1):
+            for with_ins in (False, True):
+                head = ["begin"] if explicit else []
+                if explicit and with_ins:
+                    head.append("ins")
+                for _ in range(d):
+                    head.append("begin_nested")
+                    if with_ins:
+                        head.append("ins")
+                for j in range(2, d + 1):
+                    for mis in (["commit"], ["rollback"], ["close"], ["enter", "exit_ok"], ["enter", "exit_raise"]):
+                        misuse = [f"{_hname(j)}.{v}" for v in mis]
+                        enders = ["commit", "rollback", "close"] + (["t.commit", "t.rollback", "t.close"] if explicit else [])
+                        follow = ["ins", "begin", "begin_nested", "commit", "rollback"]
+                        for h in [_hname(x) for x in range(1, d + 1)] + (["t"] if explicit else []):
+                            follow += [h + ".commit", h + ".rollback"]
+                        for end in enders:
+                            for nf in range(nfollow + 1):
+                                for fl in itertools.product(follow, repeat=nf):
+                                    ops = tuple(head + misuse + [end] + list(fl))
+                                    if len(ops) > minlen:
+                                        yield ops
+
+
+def worker(shard, nshards, maxlen, k2=0, k3=0, dmax=0, nfollow=0):
     warnings.simplefilter("ignore")
     env = Env()
     out = dict(sequences=0, evaluated=0, pruned=0, steps=0, failures=[], outcomes={}, samples=[], truncated=0, undetermined=0,
-               with_programs=0, with_programs_ctx_dead=0)
+               with_programs=0, with_programs_ctx_dead=0, resumed=0, steps_after_resume=0, recovery_programs=0)
     try:
         n_exh = 0
-        for idx, ops in enumerate(itertools.chain(sequences(maxlen), [None], with_programs(k2, k3, maxlen))):
+        n_with = 0
+        for idx, ops in enumerate(itertools.chain(sequences(maxlen), [None], with_programs(k2, k3, maxlen), [None],
+                                                  recovery_programs(dmax, nfollow, maxlen) if dmax else ())):
             if ops is None:
-                n_exh = idx
+                if n_exh:
+                    n_with = idx
+                else:
+                    n_exh = idx
                 continue
             if idx % nshards != shard:
                 continue
             out["sequences"] += 1
             r = run_seq(env, ops)
-            if n_exh:
+            if n_with:
+                out["recovery_programs"] += 1
+            elif n_exh:
                 out["with_programs"] += 1
                 if r.get("ctx_dead_steps"):
                     out["with_programs_ctx_dead"] += 1
@@ -490,6 +583,10 @@ def worker(shard, nshards, maxlen, k2=0, k3=0):
                     out["truncated"] += 1
                 f = r["failure"]
                 out["failures"].append(dict(ops=list(ops), **f))
+                if r["failure2"]:
+                    out["failures"].append(dict(ops=list(ops), **r["failure2"]))
+                out["resumed"] += r["resumed"]
+                out["steps_after_resume"] += r["steps_after_resume"]
             # abstract outcome of the whole sequence: which steps raised what
             key = "|".join(f"{o}:{e or '-'}" for o, e in r["raised"])
             out["outcomes"][key] = out["outcomes"].get(key, 0) + 1
@@ -508,11 +605,12 @@ def run(run, tier, seed, args):
     warnings.simplefilter("ignore")
     maxlen = 5 if tier == "quick" else 6
     k2, k3 = (2, 1) if tier == "quick" else (3, 2)
+    dmax, nfollow = (4, 1) if tier == "quick" else (5, 2)
     procs = default_procs(tier)
     t0 = time.time()
-    res = shard_map(worker, procs, procs, maxlen, k2, k3)
+    res = shard_map(worker, procs, procs, maxlen, k2, k3, dmax, nfollow)
     tot = dict(sequences=0, evaluated=0, pruned=0, steps=0, truncated=0, distinct_outcomes=0, with_error_step=0, undetermined=0,
-               with_programs=0, with_programs_ctx_dead=0)
+               with_programs=0, with_programs_ctx_dead=0, resumed=0, steps_after_resume=0, recovery_programs=0)
     failures, samples = [], []
     for r in res:
         if r is None or "crash" in r:
@@ -538,17 +636,27 @@ def run(run, tier, seed, args):
              "A sequence is non-trivial (distinct_nontrivial) when at least one of its steps raised, i.e. it exercises "
              "misuse / an ended transaction / a closed connection; distinct_outcomes (summed per shard) counts distinct "
              "(operation, exception class) traces; with_programs_guard_exercised counts the with-block programs in which "
-             "an operation was attempted while an entered context manager's transaction had already ended",
+             "an operation was attempted while an entered context manager's transaction had already ended; "
+             "(3) every misuse-recovery program (see scope) is enumerated; sequences_judged_again_after_a_deviation_R1 counts the "
+             "sequences in which a clause failed (recorded findings), the outer transaction was then ended and judgement resumed, "
+             "steps_judged_after_resumption_R1 the steps judged there",
         samples=samples, exhaustive=True,
         scope=f"all operation sequences of length <= {maxlen} over {OPS} on one Connection (savepoint depth <= {maxlen}), "
               f"PLUS all with-block programs longer than that: the block skeletons {sorted(SKELETONS)} (root = 'with conn.begin()', "
               f"sp = 'with conn.begin_nested()', '>' = nested inside, ',' = one after the other; 'sp>sp' autobegins), every block "
               f"independently exiting normally or by exception, with <= {k2} (two-block skeletons) / <= {k3} (three-block "
               f"skeletons) extra operations from {EXTRAS} inserted at any points inside the block bodies / after the outermost "
-              f"block; file-backed SQLite in sqlite3 autocommit=False mode, one independent observer connection; every step judged",
+              f"block; PLUS all misuse-recovery programs longer than that: [begin] + savepoint stack of depth 2..{dmax} (with / without "
+              f"an insert per frame) + one out-of-order commit / rollback / close / with-exit (ok / exception) on a savepoint at any "
+              f"position below the innermost + commit / rollback / close of the outer transaction (Connection or begin() handle) + "
+              f"<= {nfollow} follow-up operations from ins, begin, begin_nested, commit, rollback, commit / rollback on every handle; "
+              f"after a first deviation a sequence is run on and judged again from the step that ends the ghost's outer "
+              f"transaction (clause R1); file-backed SQLite in sqlite3 autocommit=False mode, one independent observer connection; every step judged",
         with_programs=tot["with_programs"], with_programs_guard_exercised=tot["with_programs_ctx_dead"],
+        recovery_programs=tot["recovery_programs"], sequences_judged_again_after_a_deviation_R1=tot["resumed"],
+        steps_judged_after_resumption_R1=tot["steps_after_resume"],
         sequences_enumerated=tot["sequences"], pruned_no_target=tot["pruned"], steps_judged=tot["steps"],
-        sequences_cut_at_first_failure=tot["truncated"],
+        sequences_cut_short_after_a_failure=tot["truncated"],
         sequences_cut_after_refused_savepoint_command_in_dead_ctx=tot["undetermined"], distinct_outcomes=tot["distinct_outcomes"],
         processes=procs, enumeration_wall_s=round(time.time() - t0, 1))
     run.assumptions += [
@@ -557,7 +665,7 @@ def run(run, tier, seed, args):
         "no faults: DBAPI errors during commit / rollback are C27's subject",
         "two-phase transactions, execution options, asyncio, threads are outside",
     ]
-    if tot["evaluated"] < 2 or tot["with_error_step"] < 2 or tot["with_programs_ctx_dead"] < 2:
+    if tot["evaluated"] < 2 or tot["with_error_step"] < 2 or tot["with_programs_ctx_dead"] < 2 or tot["recovery_programs"] < 2:
         run.crashes.append("vacuity guard: nothing evaluated")
     report(run, failures)
 
@@ -566,6 +674,8 @@ def report(run, failures):
     seen = {}
     for d in sorted(failures, key=lambda d: (len(d["ops"]), d["ops"])):
         desc = dict(ops=d["ops"], step=d["step"], op=d["op"], clause=d["clause"], pre=d["pre"], target=d.get("target"))
+        if d.get("resumed_after"):
+            desc["resumed_after"] = d["resumed_after"]
         dj = json.dumps(desc, sort_keys=True)
         k = run.match_known(function=FUNCTION, input=dj)
         if k is not None:
@@ -583,6 +693,9 @@ def report(run, failures):
 
 
 def replay(data):
+    """re-runs the recorded operation sequence; a failure recorded with ``resumed_after`` is the one found after judgement
+    resumed (clause R1) - the first deviation of that sequence (a recorded finding or a violation of its own) is shown
+    in the trace but does not decide the replay"""
     warnings.simplefilter("ignore")
     inp = data["input"]
     env = Env()
@@ -590,11 +703,14 @@ def replay(data):
         r = run_seq(env, tuple(inp["ops"]), trace=True)
     finally:
         env.close()
-    if r["status"] == "fail":
-        f = r["failure"]
-        print(f"REPLAY-FAILS {FUNCTION} input={json.dumps(inp['ops'])} step={f['step']} op={f['op']} clause={f['clause']} {f['detail']} [before: {f['pre']}]")
+    second = bool(inp.get("resumed_after"))
+    f = (r["failure2"] if second else r["failure"]) if r["status"] == "fail" else None
+    if f:
+        print(f"REPLAY-FAILS {FUNCTION} input={json.dumps(inp['ops'])} step={f['step']} op={f['op']} clause={f['clause']} {f['detail']} [before: {f['pre']}]"
+              + (f" [judged again after the deviation at {f['resumed_after']}]" if second else ""))
         for s in r["trace"]:
             print("   ", json.dumps(s))
         return 1
-    print(f"REPLAY-PASSES {FUNCTION} input={json.dumps(inp['ops'])}")
+    print(f"REPLAY-PASSES {FUNCTION} input={json.dumps(inp['ops'])}"
+          + (f" (first deviation at step {r['failure']['step']} {r['failure']['op']} {r['failure']['clause']}; nothing fails after the resumption)" if second and r["failure"] else ""))
     return 0
